@@ -560,6 +560,69 @@ class Audit:
                 self.check_head(sp, code, self.rng.randint(10 ** 6, 10 ** 9))
 
 
+FULL_RUNS = [("NZL", "milk_cattle_head", 8000000, 96, "continued"), ("ARG", "meat_cattle_head", 30000000, 96, "continued"),
+             ("IND", "milk_buffalo_head", 20000000, 72, "long_delayed_shutoff"), ("USA", "pig_head", 40000000, 84, "continued")]
+
+
+def check_full_run(a, iso, sp, value, nmonths, shutoff):
+    """a FULL three-round run with a '<species>_head' option: every create_animal_objects call of the run (whatever
+    the round) must read a head-count row that carries the override"""
+    import runutil
+    import src.food_system.animal_populations as ap
+    import src.optimizer.parameters as par
+    runutil.redirect_results()
+    opt = runutil.option(NMONTHS=nmonths, shutoff=shutoff, **{sp: value})
+    rnd = [0]
+    calls = []
+    names = {1: "compute_parameters_first_round", 2: "compute_parameters_second_round", 3: "compute_parameters_third_round"}
+    origs = {k: getattr(par.Parameters, n) for k, n in names.items()}
+
+    def mk(k):
+        def w(self, *args, **kw):
+            prev = rnd[0]
+            rnd[0] = k
+            try:
+                return origs[k](self, *args, **kw)
+            finally:
+                rnd[0] = prev
+        return w
+    orig_static = ap.AnimalModelBuilder.__dict__["create_animal_objects"]
+
+    def rec(stock, attrs):
+        try:
+            seen = float(stock[sp])
+        except Exception:
+            seen = None
+        calls.append((rnd[0], seen, str(stock.name)))
+        return orig_static.__func__(stock, attrs)
+    for k, n in names.items():
+        setattr(par.Parameters, n, mk(k))
+    ap.AnimalModelBuilder.create_animal_objects = staticmethod(rec)
+    err = None
+    try:
+        with quiet():
+            runutil.run_country(iso, opt, title="c13_full")
+    except BaseException as e:
+        err = classify(e) + ": " + str(e)[:100]
+    finally:
+        for k, n in names.items():
+            setattr(par.Parameters, n, origs[k])
+        ap.AnimalModelBuilder.create_animal_objects = orig_static
+        runutil.cleanup_cwd()
+    a.cnt("F_full_runs")
+    inp = {"iso3": iso, "species": sp, "value": value, "nmonths": nmonths, "shutoff": shutoff}
+    per_round = {}
+    for k, seen, label in calls:
+        per_round[k] = per_round.get(k, 0) + 1
+        a.cnt("F_animal_model_calls", False)
+        if seen != float(value):
+            a.fail(f"C13:head-override-lost@parameters.{names.get(k, 'outside_rounds')}:round{k}",
+                   f"{iso} {sp}={value} ({nmonths} months, shutoff {shutoff}): the animal model built in round {k} reads "
+                   f"{sp}={seen} from row {label} - the override did not reach it", "fullrun", inp)
+    a.obs.setdefault("full_runs", []).append({"run": inp, "animal_model_calls_per_round": per_round, "error": err})
+    return per_round, err
+
+
 def species_columns():
     t = pd.read_csv("data/no_food_trade/animal_feed_data/FAOSTAT_head_and_slaughter.csv", nrows=1)
     return [c for c in t.columns if c.endswith("_head")]
@@ -581,6 +644,8 @@ def run(payload):
             a.check_head(inp["species"], inp["code"], inp["value"])
         elif chk == "doc":
             a.check_doc(inp["fam"], inp["val"])
+        elif chk == "fullrun":
+            check_full_run(a, inp["iso3"], inp["species"], inp["value"], inp["nmonths"], inp["shutoff"])
         elif chk == "country":
             a.check_country(inp["iso3"], inp.get("waste", "baseline_in_country"))
         elif chk == "frame":
@@ -603,6 +668,8 @@ def run(payload):
     else:
         codes = all_codes + ["WOR", "SWZ"]
     a.part_E(species, codes)
+    for fr in (FULL_RUNS[:2] if quick else FULL_RUNS):
+        check_full_run(a, *fr)
     return {"failures": a.failures, "counts": a.counts, "observations": a.obs, "distinct": a.distinct}
 
 
